@@ -95,6 +95,7 @@ def _fam_jnp(name):
         "tanh": lambda x, th: np.tanh(th[0] * (x - th[1])),
         "steep": lambda x, th: np.sign(x) * np.abs(x) ** th[1] - th[0],
         "exp": lambda x, th: np.exp(x) - th[0],
+        "flatoff": lambda x, th: (x - th[0]) ** 5 - th[1],
     }[name]
 
 
@@ -112,7 +113,12 @@ def _cases(g, tier, seed):
             lo, hi, r = br
             for sl, sig in SIGMAS:
                 for xk in a["x0"]:
-                    x0 = ref.guess(xk, lo, hi, r)
+                    if xk == "stat":        # guess at a stationary point that is not a root (only some families have one)
+                        x0 = ref.stationary(fam, th)
+                        if x0 is None:
+                            continue
+                    else:
+                        x0 = ref.guess(xk, lo, hi, r)
                     cases.append({"inst": il, "th": [float(t) for t in th], "sl": sl, "sig": sig, "bk": bk,
                                   "lo": float(lo), "hi": float(hi), "r": float(r), "xk": xk, "x0": float(x0)})
     return cases, skipped
